@@ -190,6 +190,33 @@ def F17():
     return bad, f"age-to-age summary present per cell {has}: the last cell of slice 1 takes the first cell of slice 2 as its successor"
 
 
+def F19():
+    import math
+
+    bad = []
+    for a, b in [(Metadata(country=None), Metadata(country="")),
+                 (Metadata(per_occurrence_limit=None), Metadata(per_occurrence_limit=math.inf))]:
+        if a != b and not (a < b) and not (b < a):
+            bad.append((a, b))
+    ms = [Metadata(country=None), Metadata(country="")]
+    cs = [mk(D(2020, 1, 1), D(2020, 3, 31), ev, {"x": 1}, m) for m in ms for ev in (D(2020, 3, 31), D(2020, 6, 30))]
+    seqs = {tuple((c.metadata.country, c.evaluation_date) for c in Triangle(list(p))) for p in itertools.permutations(cs)}
+    return bool(bad) or len(seqs) != 1, f"{len(bad)} unordered pairs of distinct Metadata (None vs '' / inf); {len(seqs)} cell sequences from 24 permutations"
+
+
+def F20():
+    def inc(ev, prev, v):
+        return IncrementalCell(period_start=D(2020, 1, 1), period_end=D(2020, 3, 31), prev_evaluation_date=prev,
+                               evaluation_date=ev, values={"paid_loss": v})
+    a, b = inc(D(2020, 3, 31), D(2019, 12, 31), 1), inc(D(2020, 3, 31), D(2019, 12, 31), 1.0)
+    try:
+        ok = a == b and hash(a) == hash(b) and hash(Triangle([a])) == hash(Triangle([b])) and len({a, b}) == 1
+        c = inc(D(2020, 3, 31), D(2020, 1, 31), 1)
+        return not ok, f"equal incremental cells hash alike: {ok}; differ-in-prev distinct: {a != c}"
+    except TypeError as ex:
+        return True, f"hash(IncrementalCell) raises TypeError: {ex}"
+
+
 ALL = {k: v for k, v in globals().items() if k.startswith("F") and k[1:].isdigit()}
 
 if __name__ == "__main__":
